@@ -344,6 +344,11 @@ FASTCOVER_ctx_init(FASTCOVER_ctx_t* ctx,
         return ERROR(srcSize_wrong);
     }
 
+    /* The training part must hold at least one dmer : its size is what gets subtracted below */
+    if (trainingSamplesSize < MAX(d, sizeof(U64))) {
+        DISPLAYLEVEL(1, "Training samples are too small (%u bytes)\n", (unsigned)trainingSamplesSize);
+        return ERROR(srcSize_wrong);
+    }
     /* Zero the context */
     memset(ctx, 0, sizeof(*ctx));
     DISPLAYLEVEL(2, "Training on %u samples of total size %u\n", nbTrainSamples,
